@@ -94,7 +94,7 @@ func TestZZVStreamIdReplay(t *testing.T) {
 			}
 		}
 	}
-	zzvEmit("summary", map[string]any{"paths": len(in.Paths), "steps": steps, "mismatches": mism})
+	zzvEmit("summary", map[string]any{"test": "replay", "paths": len(in.Paths), "steps": steps, "mismatches": mism})
 }
 
 // ---- code -> spec ------------------------------------------------------------------------------
@@ -279,7 +279,7 @@ func TestZZVStreamIdTrace(t *testing.T) {
 			}
 		}
 	}
-	zzvEmit("summary", map[string]any{"events": events, "rounds": 2*rounds + fresh, "fresh_pairs": fresh, "goroutines": 2 * g, "allocated": st.Allocated,
+	zzvEmit("summary", map[string]any{"test": "trace", "events": events, "rounds": 2*rounds + fresh, "fresh_pairs": fresh, "goroutines": 2 * g, "allocated": st.Allocated,
 		"zero": st.Zero, "dup_per_end": st.DupPerEnd, "parity_bad": st.ParityBad, "cross_end": st.CrossEnd, "gaps": st.Gaps,
 		"samples": samples})
 }
